@@ -1430,10 +1430,59 @@ func (in *Interp) ret(st *State, res Value) {
 		}
 		panic(endPath{kind: "ok"})
 	}
+	if f.syncOut != nil {
+		*f.syncOut = res
+		return
+	}
 	if f.retTo != nil {
 		caller := st.top()
 		in.setReg(caller, f.retTo, res)
 	}
+}
+
+// callSync runs fn(args) to completion inside the current step (used by the
+// formatting intrinsics for String()/Error() methods of concrete values). It
+// only succeeds when the callee neither forks nor ends the path; otherwise the
+// state is put back as it was and ok is false.
+func (in *Interp) callSync(st *State, fn *ssa.Function, args []Value) (res Value, ok bool) {
+	if fn == nil || fn.Blocks == nil {
+		if fn == nil {
+			return nil, false
+		}
+		if in.eng.buildOnDemand(fn); fn.Blocks == nil {
+			return nil, false
+		}
+	}
+	// On failure only the callee's frames are dropped: forks are requested before
+	// anything is mutated, and what a String()/Error() method has done up to that
+	// point (allocations, package initialisation) is kept - rolling the state back
+	// would also roll back package initialisers, which would then run again on
+	// every formatting call.
+	depth := len(st.stack)
+	panicking := st.panicking
+	defer func() {
+		if r := recover(); r != nil {
+			switch r.(type) {
+			case forkReq, endPath, contReq:
+				st.stack = st.stack[:depth]
+				st.panicking = panicking
+				res, ok = nil, false
+			default:
+				panic(r)
+			}
+		}
+	}()
+	var out Value
+	in.pushFrame(st, fn, args, nil)
+	st.top().syncOut = &out
+	for n := 0; len(st.stack) > depth; n++ {
+		if n > 200000 {
+			st.stack = st.stack[:depth]
+			return nil, false
+		}
+		in.step(st)
+	}
+	return out, true
 }
 
 func (in *Interp) prepareCall(st *State, f *Frame, c *ssa.CallCommon) (Value, []Value) {
